@@ -17,11 +17,13 @@ BOUNDS = {"resolve": "<=3 ranks, <=2 methods per rank"}
 
 
 def tasks(tier):
-    return _tm.mtm_missing_tasks(("plain", "coded", "coded_nullary")) + _tm.resolve_tasks(tier) + _tm.e2e_tasks(["complete"], "quick")[:3]
+    from contracts import recode_c
+
+    return [dict(name="recode.tail", build=recode_c.t_recode_tail, mode="U")] + _tm.mtm_missing_tasks(("plain", "coded", "coded_nullary")) + _tm.resolve_tasks(tier) + _tm.e2e_tasks(["complete"], "quick")[:3]
 
 
 def conformance(tier):
-    return [dict(name="native:c07", argv=["c07_chains.py"], violation_on_fail=True)]
+    return [dict(name="native:c07", argv=["c07_chains.py"], violation_on_fail=True), dict(name="native:c08", argv=["c08_graphs.py"], violation_on_fail=True)]
 
 
 def concretise(obname, detail, task_result, native):
